@@ -868,4 +868,387 @@ Section Tracker.
     induction h as [|op r IH]; intros st R; simpl; [assumption|].
     specialize (IH _ (reach_step st op R)). destruct (trk_run nattrs (r_state (trk_step nattrs st op)) r). exact IH.
   Qed.
+
+  (* ================================================================================= 5. C12 *)
+  (* what a message carries, as the specification sees it: the attribute is present iff hasattr and not None *)
+  Definition present (a : trk_mattr V) : option V := match a with MPresent (Some v) => Some v | _ => None end.
+
+  Definition abs_op (op : trk_op V) : sp_op V :=
+    match op with
+    | OpUpdate now msg ts => SpUpdate now (m_mmsi msg) (map present (m_attrs msg)) ts
+    | OpCleanup now => SpCleanup now
+    | OpPop m => SpPop m
+    | _ => SpOther
+    end.
+
+  (* the abstraction: forget the insertion order, the cache, the subscribers *)
+  Definition abs_track (tr : track) : sp_track V := mkSpTrack (tr_lu tr) (tr_attrs tr).
+  Definition abs_get (st : tracker) (m : Z) : option (sp_track V) := option_map abs_track (idict_get (t_tracks st) m).
+  Definition refines (st : tracker) (log : sp_log V) : Prop := forall m, abs_get st m = sp_track_of nattrs m log.
+
+  Definition carried (ms : list (trk_mattr V)) (i : nat) : option V :=
+    match nth_error ms i with Some (MPresent (Some v)) => Some v | _ => None end.
+
+  Lemma set_fields_nil (cur : list (option V)) : trk_set_fields cur [] = cur.
+  Proof. destruct cur; reflexivity. Qed.
+
+  Lemma set_fields_spec n : forall ms, trk_set_fields (repeat None n) ms = map (carried ms) (seq 0 n).
+  Proof.
+    induction n as [|n IH]; intros ms; [reflexivity|]. simpl repeat. rewrite <- cons_seq, <- seq_shift. simpl map. rewrite map_map.
+    destruct ms as [|a ar]; simpl trk_set_fields.
+    - f_equal. rewrite <- (set_fields_nil (repeat None n)), IH. apply map_ext. intros i. unfold carried.
+      now destruct i.
+    - rewrite IH. reflexivity.
+  Qed.
+
+  Lemma merge_map {B} (f g : B -> option V) l :
+    trk_merge_fields (map f l) (map g l) = map (fun i => match g i with Some v => Some v | None => f i end) l.
+  Proof. induction l as [|x r IH]; simpl; [reflexivity | now rewrite IH]. Qed.
+
+  Lemma most_recent_cons i a t msgs :
+    sp_most_recent i ((map present a, t) :: msgs) =
+    match carried a i with Some v => Some v | None => sp_most_recent i msgs end.
+  Proof.
+    simpl. unfold carried. rewrite nth_error_map. destruct (nth_error a i) as [[|[v|]]|]; reflexivity.
+  Qed.
+
+  Lemma since_rem_app m l (log : sp_log V) :
+    sp_since_removal m (map SRem l ++ log) = if inset l m then [] else sp_since_removal m log.
+  Proof.
+    induction l as [|x r IH]; simpl; [reflexivity|]. unfold inset in *. simpl.
+    destruct (m =? x); [reflexivity | apply IH].
+  Qed.
+
+  Lemma track_of_rem_app m l (log : sp_log V) :
+    sp_track_of nattrs m (map SRem l ++ log) = if inset l m then None else sp_track_of nattrs m log.
+  Proof. unfold sp_track_of. rewrite since_rem_app. destruct (inset l m); reflexivity. Qed.
+
+  Lemma lu_of_track_of m (log : sp_log V) : sp_lu_of m log = option_map (@sp_lu V) (sp_track_of nattrs m log).
+  Proof. unfold sp_lu_of, sp_track_of. destruct (sp_since_removal m log) as [|[a t] r]; reflexivity. Qed.
+
+  Lemma refines_lu st log m : refines st log -> sp_lu_of m log = option_map (@tr_lu V) (idict_get (t_tracks st) m).
+  Proof.
+    intros R. rewrite lu_of_track_of, <- R. unfold abs_get. destruct (idict_get (t_tracks st) m); reflexivity.
+  Qed.
+
+  Lemma since_in_mmsis m (log : sp_log V) : sp_since_removal m log <> [] -> In m (sp_mmsis log).
+  Proof.
+    induction log as [|[m' a t|m'] r IH]; simpl; [congruence| |].
+    - destruct (Z.eqb_spec m m') as [->|N]; [now left | right; auto].
+    - destruct (Z.eqb_spec m m') as [->|N]; [now left | right; auto].
+  Qed.
+
+  Lemma older_iff st log m ts : refines st log -> sp_older ts m log = true <-> older_than_track st m ts.
+  Proof.
+    intros R. unfold sp_older, older_than_track. rewrite (refines_lu st log m R).
+    destruct (idict_get (t_tracks st) m) as [tr|]; simpl.
+    - rewrite Z.ltb_lt. split; [intros L; exists tr; auto | intros (o & [= <-] & L); assumption].
+    - split; [discriminate | intros (o & X & _); discriminate].
+  Qed.
+
+  Lemma rejected_iff st log m ts : inv st -> refines st log ->
+    sp_rejected (t_ordered st) m ts log = true <-> upd_rejected st m ts.
+  Proof.
+    intros I R. unfold sp_rejected, upd_rejected, out_of_order. rewrite orb_true_iff, andb_true_iff, (older_iff st log m ts R).
+    rewrite existsb_exists. split; (intros [H|H]; [now left | right]).
+    - destruct H as (EO & m' & _ & O). split; [assumption|]. apply (older_iff st log m' ts R) in O.
+      destruct O as (tr & G & L). exists m', tr. split; [now apply get_some_in | assumption].
+    - destruct H as (EO & k & tr & H & L). split; [assumption|]. exists k.
+      pose proof (in_get _ _ _ (inv_nodup _ I) H) as G. split.
+      + apply since_in_mmsis. pose proof (refines_lu st log k R) as E. rewrite G in E. unfold sp_lu_of in E.
+        destruct (sp_since_removal k log); [discriminate | congruence].
+      + apply (older_iff st log k ts R). exists tr. auto.
+  Qed.
+
+  (* what expiry removed, read off the DELETED calls, against the set the model deleted *)
+  Lemma expired_vs_del (d : idict track) del (calls : list call) m :
+    (forall m, calls_for m calls = if inset del m then deleted_call d m else []) ->
+    inset (deleted_mmsis calls) m = inset del m && idict_mem d m.
+  Proof.
+    intros C. destruct (inset (deleted_mmsis calls) m) eqn:E.
+    - apply inset_iff in E. unfold deleted_mmsis in E. apply in_map_iff in E. destruct E as (c & <- & Ic).
+      apply filter_In in Ic. destruct (cleanup_calls _ _ _ C c (proj1 Ic)) as (_ & D & G).
+      apply inset_iff in D. unfold idict_mem. now rewrite D, G.
+    - destruct (inset del m) eqn:D; [|reflexivity]. unfold idict_mem. destruct (idict_get d m) as [tr|] eqn:G; [|reflexivity].
+      exfalso. apply inset_false in E. apply E. unfold deleted_mmsis.
+      assert (J : In (DELETED, tr) (calls_for m calls)) by (rewrite C, D; unfold deleted_call; rewrite G; now left).
+      apply filter_In in J. destruct J as [J K]. apply Z.eqb_eq in K. simpl in K.
+      apply in_map_iff. exists (DELETED, tr). split; [now rewrite K | apply filter_In; split; [assumption | reflexivity]].
+  Qed.
+
+  Lemma refines_after_cleanup (st2 : tracker) log1 now : inv st2 -> refines st2 log1 ->
+    refines (fst (trk_cleanup st2 now)) (map SRem (deleted_mmsis (snd (trk_cleanup st2 now))) ++ log1).
+  Proof.
+    intros I R m. destruct (cleanup_spec st2 now I) as (del & o' & calls & Ec & _ & C & _). rewrite Ec. simpl.
+    rewrite track_of_rem_app, (expired_vs_del _ _ _ m C), <- R. unfold abs_get. simpl. rewrite get_without.
+    unfold idict_mem. destruct (inset del m); simpl; [|reflexivity]. destruct (idict_get (t_tracks st2) m); reflexivity.
+  Qed.
+
+  Lemma deleted_mmsis_update (st : tracker) m tr (calls : list call) :
+    deleted_mmsis ((upd_event st m, tr) :: calls) = deleted_mmsis calls.
+  Proof. unfold deleted_mmsis. simpl. now rewrite upd_event_not_deleted. Qed.
+
+  Lemma refines_after_insert (st : tracker) log now (msg : trk_msg V) ts : inv st -> refines st log ->
+    refines (after_insert st (m_mmsi msg) (trk_msg_to_track nattrs msg ts now))
+            (SUpd (m_mmsi msg) (map present (m_attrs msg)) (msg_ts ts now) :: log).
+  Proof.
+    intros I R m. set (m0 := m_mmsi msg). set (new := trk_msg_to_track nattrs msg ts now).
+    destruct (after_insert_cfg st m0 new) as (_ & _ & _ & Etr). unfold abs_get. rewrite Etr.
+    rewrite get_app_single, get_without, (Z.eqb_sym m0 m). unfold sp_track_of. simpl sp_since_removal.
+    destruct (Z.eqb_spec m m0) as [->|N].
+    - (* the updated MMSI: the merged attributes are the most recent present values *)
+      cbn [option_map]. f_equal. unfold abs_track.
+      assert (Elu : tr_lu (upd_result st m0 new) = msg_ts ts now).
+      { destruct (upd_result_facts st m0 new I) as (_ & -> & _); apply msg_to_track_facts. }
+      rewrite Elu. f_equal.
+      assert (Enew : tr_attrs new = map (carried (m_attrs msg)) (seq 0 nattrs)).
+      { unfold new, trk_msg_to_track. destruct ts; simpl; apply set_fields_spec. }
+      specialize (R m0). unfold abs_get, sp_track_of, upd_result, abs_track in *.
+      destruct (idict_get (t_tracks st) m0) as [old|]; cbn [option_map] in R.
+      + destruct (sp_since_removal m0 log) as [|[a0 t0] r0] eqn:ES; [discriminate|]. injection R as Rlu Rattrs.
+        unfold trk_update_track. cbn [tr_attrs]. rewrite Rattrs, Enew, merge_map. apply map_ext. intros i.
+        now rewrite most_recent_cons.
+      + destruct (sp_since_removal m0 log) as [|[a0 t0] r0] eqn:ES; [|discriminate].
+        rewrite Enew. apply map_ext. intros i. rewrite most_recent_cons. cbn [sp_most_recent].
+        now destruct (carried (m_attrs msg) i).
+    - specialize (R m). unfold abs_get, sp_track_of in R. rewrite <- R.
+      destruct (idict_get (t_tracks st) m); reflexivity.
+  Qed.
+
+  (* C12, one operation: the abstraction of the new state is what the log specification prescribes, where the
+     specification is told which MMSIs expiry removed (the DELETED events of the step) *)
+  Theorem step_refines (st : tracker) log op : inv st -> refines st log ->
+    let res := trk_step nattrs st op in
+    refines (r_state res) (sp_step (t_ordered st) log (abs_op op) (deleted_mmsis (r_calls res))).
+  Proof.
+    intros I R res. subst res. destruct op as [now msg ts|now|m1|ev cb|ev cb]; simpl.
+    - fold (msg_ts ts now).
+      assert (Elu : tr_lu (trk_msg_to_track nattrs msg ts now) = msg_ts ts now) by apply msg_to_track_facts.
+      pose proof (rejected_iff st log (m_mmsi msg) (msg_ts ts now) I R) as RJ.
+      destruct (update_spec st now msg ts I) as [[Rej E]|(NRej & I2 & E)]; rewrite E; simpl; rewrite Elu in *.
+      + apply RJ in Rej. now rewrite Rej.
+      + destruct (sp_rejected (t_ordered st) (m_mmsi msg) (msg_ts ts now) log) eqn:ER; [exfalso; apply NRej; now apply RJ|].
+        rewrite deleted_mmsis_update. apply refines_after_cleanup; [assumption|]. now apply refines_after_insert.
+    - pose proof (refines_after_cleanup st log now I R) as H. destruct (trk_cleanup st now) as [st1 c]. exact H.
+    - rewrite pop_track_spec by apply I. intros m. unfold sp_track_of. simpl sp_since_removal.
+      specialize (R m). unfold sp_track_of in R.
+      destruct (idict_get (t_tracks st) m1) as [tr|] eqn:G; simpl; unfold abs_get in *; simpl.
+      + rewrite get_without, (Z.eqb_sym m1 m). destruct (m =? m1); [reflexivity | exact R].
+      + destruct (Z.eqb_spec m m1) as [->|N]; [now rewrite G | exact R].
+    - exact R.
+    - exact R.
+  Qed.
+
+  Lemma step_cfg (st : tracker) op : inv st ->
+    t_ordered (r_state (trk_step nattrs st op)) = t_ordered st /\ t_ttl (r_state (trk_step nattrs st op)) = t_ttl st.
+  Proof.
+    intros I. destruct op as [now msg ts|now|m1|ev cb|ev cb]; simpl; auto.
+    - destruct (update_spec st now msg ts I) as [[_ E]|(_ & I2 & E)]; rewrite E; simpl; [auto|].
+      destruct (cleanup_spec _ now I2) as (del & o' & calls & Ec & _). rewrite Ec. simpl.
+      destruct (after_insert_cfg st (m_mmsi msg) (trk_msg_to_track nattrs msg ts now)) as (-> & -> & _). auto.
+    - destruct (cleanup_spec _ now I) as (del & o' & calls & Ec & _). rewrite Ec. simpl. auto.
+    - rewrite pop_track_spec by apply I. destruct (idict_get (t_tracks st) m1); simpl; auto.
+  Qed.
+
+  (* the history as the specification sees it: every operation with the MMSIs its DELETED events name *)
+  Definition spec_history (h : list (trk_op V)) (rs : list (trk_result V)) : list (sp_op V * list Z) :=
+    combine (map abs_op h) (map (fun r => deleted_mmsis (r_calls r)) rs).
+
+  Lemma run_refines : forall h (st : tracker) log, inv st -> refines st log ->
+    refines (fst (trk_run nattrs st h))
+            (sp_run (t_ordered st) log (spec_history h (snd (trk_run nattrs st h)))).
+  Proof.
+    induction h as [|op r IH]; intros st log I R; simpl; [exact R|].
+    destruct (trk_run nattrs (r_state (trk_step nattrs st op)) r) as [st' rs] eqn:ER. simpl.
+    specialize (IH (r_state (trk_step nattrs st op)) (sp_step (t_ordered st) log (abs_op op) (deleted_mmsis (r_calls (trk_step nattrs st op))))).
+    rewrite ER in IH. simpl in IH. rewrite (proj1 (step_cfg st op I)) in IH.
+    apply IH; [now apply step_inv | now apply step_refines].
+  Qed.
+
+  (* C12: for every history the tracker, as a finite map, is the map the log of accepted updates defines *)
+  Theorem refinement ttl ordered h :
+    refines (fst (trk_run nattrs (trk_init ttl ordered) h))
+            (sp_run ordered [] (spec_history h (snd (trk_run nattrs (trk_init ttl ordered) h)))).
+  Proof. apply (run_refines h (trk_init ttl ordered) []); [apply inv_init | intros m; reflexivity]. Qed.
+
+  (* ... and a rejected update (exactly the updates the specification calls rejected) changes nothing at all *)
+  Theorem rejected_unchanged (st : tracker) now (msg : trk_msg V) ts : reachable st ->
+    let res := trk_step nattrs st (OpUpdate now msg ts) in
+    (r_exn res <> None <-> upd_rejected st (m_mmsi msg) (msg_ts ts now)) /\
+    (r_exn res <> None -> r_state res = st /\ r_calls res = [] /\ r_exn res = Some (Py ValueError)).
+  Proof.
+    intros R res. subst res. apply reachable_inv in R. simpl.
+    assert (Elu : tr_lu (trk_msg_to_track nattrs msg ts now) = msg_ts ts now) by apply msg_to_track_facts.
+    destruct (update_spec st now msg ts R) as [[Rej E]|(NRej & I2 & E)]; rewrite E; simpl; rewrite Elu in *.
+    - split; [split; [auto | discriminate] | auto].
+    - split; [split; [congruence | tauto] | congruence].
+  Qed.
+
+  (* "exactly one track per MMSI": the MMSIs of the tracks are pairwise different and get_track finds each *)
+  Theorem one_track_per_mmsi (st : tracker) : reachable st ->
+    NoDup (map (@tr_mmsi V) (trk_tracks st)) /\
+    (forall tr, In tr (trk_tracks st) -> trk_get_track st (tr_mmsi tr) = Some tr) /\
+    (forall m tr, trk_get_track st m = Some tr -> In tr (trk_tracks st) /\ tr_mmsi tr = m /\ length (tr_attrs tr) = nattrs).
+  Proof.
+    intros R. apply reachable_inv in R. unfold trk_tracks, trk_get_track. split; [|split].
+    - rewrite values_mmsi_keys by assumption. apply R.
+    - intros tr H. apply in_values in H. destruct H as (k & H). rewrite (inv_key _ R _ _ H). now apply in_get; [apply R|].
+    - intros m tr G. apply get_some_in in G. split; [apply in_values; now exists m|]. split; [now apply (inv_key _ R) | now apply (inv_len _ R m)].
+  Qed.
 End Tracker.
+
+(* ================================================================================= the specification itself *)
+(* sanity of Spec/TrackerSpec.v: the boolean forms used as oracles are the propositions, and the "most recent
+   present value" really is one that was reported *)
+Section SpecFacts.
+  Context {V : Type}.
+
+  Lemma most_recent_reported i (msgs : list (list (option V) * Z)) v :
+    sp_most_recent i msgs = Some v ->
+    exists pre a t post, msgs = pre ++ (a, t) :: post /\ nth_error a i = Some (Some v) /\
+      forall a' t', In (a', t') pre -> forall v', nth_error a' i <> Some (Some v').
+  Proof.
+    induction msgs as [|[a t] r IH]; simpl; [discriminate|].
+    destruct (nth_error a i) as [[v0|]|] eqn:E.
+    - intros [= <-]. exists [], a, t, r. repeat split; [assumption | intros ? ? []].
+    - intros H. destruct (IH H) as (pre & a1 & t1 & post & -> & N & P). exists ((a, t) :: pre), a1, t1, post.
+      repeat split; [assumption|]. intros a' t' [[= <- <-]|J] v'; [congruence | now apply (P a' t')].
+    - intros H. destruct (IH H) as (pre & a1 & t1 & post & -> & N & P). exists ((a, t) :: pre), a1, t1, post.
+      repeat split; [assumption|]. intros a' t' [[= <- <-]|J] v'; [congruence | now apply (P a' t')].
+  Qed.
+
+  Lemma never_reported_none i (msgs : list (list (option V) * Z)) :
+    (forall a t, In (a, t) msgs -> forall v, nth_error a i <> Some (Some v)) -> sp_most_recent i msgs = None.
+  Proof.
+    induction msgs as [|[a t] r IH]; simpl; [reflexivity|]. intros H.
+    destruct (nth_error a i) as [[v0|]|] eqn:E.
+    - exfalso. apply (H a t (or_introl eq_refl) v0 E).
+    - apply IH. intros a' t' J. apply (H a' t'). now right.
+    - apply IH. intros a' t' J. apply (H a' t'). now right.
+  Qed.
+End SpecFacts.
+
+Lemma ttl_okb_iff T now a b : sp_ttl_okb T now a b = true <-> sp_ttl_ok T now a b.
+Proof.
+  unfold sp_ttl_okb, sp_ttl_ok. rewrite andb_true_iff, !forallb_forall, !Forall_forall.
+  split; intros [A B]; split; intros x I; [apply Z.ltb_lt | apply Z.leb_le | apply Z.ltb_lt | apply Z.leb_le]; auto.
+Qed.
+
+Lemma zmemb_iff x l : zmemb x l = true <-> In x l.
+Proof.
+  unfold zmemb. rewrite existsb_exists. split.
+  - intros (y & I & E). apply Z.eqb_eq in E. now subst.
+  - intros I. exists x. split; [assumption | apply Z.eqb_refl].
+Qed.
+
+Lemma nodupb_iff l : nodupb l = true <-> NoDup l.
+Proof.
+  induction l as [|x r IH]; simpl; [split; [constructor | reflexivity]|].
+  rewrite andb_true_iff, negb_true_iff, IH. split.
+  - intros [N D]. constructor; [|assumption]. intros I. apply zmemb_iff in I. congruence.
+  - intros H. inversion H as [|? ? N D]; subst. split; [|assumption].
+    destruct (zmemb x r) eqn:E; [|reflexivity]. apply zmemb_iff in E. contradiction.
+Qed.
+
+Lemma pair_memb_iff x l : pair_memb x l = true <-> In x l.
+Proof.
+  unfold pair_memb. rewrite existsb_exists. split.
+  - intros ([a b] & I & E). apply andb_true_iff in E. destruct E as [E1 E2]. apply Z.eqb_eq in E1, E2.
+    destruct x as [c d]. simpl in *. now subst.
+  - intros I. exists x. split; [assumption|]. now rewrite !Z.eqb_refl.
+Qed.
+
+Lemma top_nb_iff n all r : sp_top_nb n all r = true <-> sp_top_n n all r.
+Proof.
+  unfold sp_top_nb, sp_top_n. rewrite !andb_true_iff, Z.eqb_eq, nodupb_iff, !forallb_forall. split.
+  - intros (((A & B) & C) & D). repeat split; [assumption | assumption | |].
+    + intros x I. apply pair_memb_iff. now apply C.
+    + intros x y Ix Iy N. specialize (D x Ix). rewrite forallb_forall in D. specialize (D y Iy).
+      apply orb_true_iff in D. destruct D as [D|D]; [apply zmemb_iff in D; contradiction | now apply Z.leb_le].
+  - intros (A & B & C & D). repeat split; [assumption | assumption | |].
+    + intros x I. apply pair_memb_iff. now apply C.
+    + intros x Ix. apply forallb_forall. intros y Iy. apply orb_true_iff.
+      destruct (zmemb (fst y) (map fst r)) eqn:E; [now left | right]. apply Z.leb_le. apply (D x y Ix Iy).
+      intros J. apply zmemb_iff in J. congruence.
+Qed.
+
+Lemma newest_firstb_iff r : sp_newest_firstb r = true <-> sp_newest_first r.
+Proof.
+  unfold sp_newest_first. induction r as [|a t IH]; simpl; [split; [constructor | reflexivity]|].
+  rewrite andb_true_iff, forallb_forall, IH. split.
+  - intros [F S]. constructor; [assumption|]. apply Forall_forall. intros b I. apply Z.leb_le. now apply F.
+  - intros H. inversion H as [|? ? S F]; subst. split; [|assumption]. intros b I. apply Z.leb_le.
+    rewrite Forall_forall in F. now apply F.
+Qed.
+
+(* ================================================================================= C12 + C13 in one statement *)
+(* With expiry computed by the specification itself (exactly the tracks whose age has reached the TTL), the
+   tracker refines a specification that does not look at the implementation at all. *)
+Section Exact.
+  Context {V : Type}.
+  Variable nattrs : nat.
+  Notation tracker := (trk_tracker V).
+
+  Lemma spec_expired_iff (st2 : tracker) (log1 : sp_log V) now m tr :
+    refines nattrs st2 log1 -> idict_get (t_tracks st2) m = Some tr ->
+    inset (sp_expired (t_ttl st2) now log1) m = true <->
+    exists T, t_ttl st2 = Some T /\ T <= now - tr_lu tr.
+  Proof.
+    intros R G. pose proof (refines_lu nattrs st2 log1 m R) as L. rewrite G in L. simpl in L.
+    rewrite inset_iff. unfold sp_expired. destruct (t_ttl st2) as [T|].
+    - rewrite filter_In, L, Z.leb_le. split.
+      + intros [_ H]. now exists T.
+      + intros (T' & [= <-] & H). split; [|assumption]. apply since_in_mmsis. unfold sp_lu_of in L.
+        destruct (sp_since_removal m log1); [discriminate | congruence].
+    - split; [intros [] | intros (T & X & _); discriminate].
+  Qed.
+
+  Lemma refines_after_cleanup_exact (st2 : tracker) log1 now : inv nattrs st2 -> refines nattrs st2 log1 ->
+    refines nattrs (fst (trk_cleanup st2 now)) (map SRem (sp_expired (t_ttl st2) now log1) ++ log1).
+  Proof.
+    intros I R m. destruct (cleanup_spec nattrs st2 now I) as (del & o' & calls & Ec & _ & _ & X). rewrite Ec. simpl.
+    rewrite track_of_rem_app, <- R. unfold abs_get. simpl. rewrite get_without.
+    destruct (idict_get (t_tracks st2) m) as [tr|] eqn:G; simpl.
+    2:{ destruct (inset del m), (inset (sp_expired (t_ttl st2) now log1) m); reflexivity. }
+    pose proof (spec_expired_iff st2 log1 now m tr R G) as SE. apply get_some_in in G.
+    destruct (inset del m) eqn:D; destruct (inset (sp_expired (t_ttl st2) now log1) m) eqn:E; try reflexivity; exfalso.
+    - apply inset_iff in D. destruct (t_ttl st2) as [T|]; [|subst del; destruct D].
+      apply (X _ _ G) in D. assert (H : false = true) by (apply SE; now exists T). discriminate.
+    - destruct (proj1 SE eq_refl) as (T & ET & St). rewrite ET in X. apply (X _ _ G) in St.
+      apply inset_false in D. contradiction.
+  Qed.
+
+  Theorem step_refines_exact (st : tracker) log op : inv nattrs st -> refines nattrs st log ->
+    refines nattrs (r_state (trk_step nattrs st op)) (sp_step_exact (t_ttl st) (t_ordered st) log (abs_op op)).
+  Proof.
+    intros I R. destruct op as [now msg ts|now|m1|ev cb|ev cb].
+    - simpl. fold (msg_ts ts now).
+      assert (Elu : tr_lu (trk_msg_to_track nattrs msg ts now) = msg_ts ts now) by apply msg_to_track_facts.
+      pose proof (rejected_iff nattrs st log (m_mmsi msg) (msg_ts ts now) I R) as RJ.
+      destruct (update_spec nattrs st now msg ts I) as [[Rej E]|(NRej & I2 & E)]; rewrite E; simpl; rewrite Elu in *.
+      + apply RJ in Rej. now rewrite Rej.
+      + destruct (sp_rejected (t_ordered st) (m_mmsi msg) (msg_ts ts now) log) eqn:ER; [exfalso; apply NRej; now apply RJ|].
+        destruct (after_insert_cfg st (m_mmsi msg) (trk_msg_to_track nattrs msg ts now)) as (Ettl & _).
+        rewrite <- Ettl. apply refines_after_cleanup_exact; [assumption|]. now apply refines_after_insert.
+    - simpl. pose proof (refines_after_cleanup_exact st log now I R) as H.
+      destruct (trk_cleanup st now) as [st1 c]. exact H.
+    - apply (step_refines nattrs st log (OpPop m1) I R).
+    - exact R.
+    - exact R.
+  Qed.
+
+  Lemma run_refines_exact : forall h (st : tracker) log, inv nattrs st -> refines nattrs st log ->
+    refines nattrs (fst (trk_run nattrs st h))
+            (fold_left (sp_step_exact (t_ttl st) (t_ordered st)) (map abs_op h) log).
+  Proof.
+    induction h as [|op r IH]; intros st log I R; simpl; [exact R|].
+    destruct (trk_run nattrs (r_state (trk_step nattrs st op)) r) as [st' rs] eqn:ER. simpl.
+    specialize (IH (r_state (trk_step nattrs st op)) (sp_step_exact (t_ttl st) (t_ordered st) log (abs_op op))).
+    rewrite ER in IH. simpl in IH. destruct (step_cfg nattrs st op I) as (Eo & Et). rewrite Eo, Et in IH.
+    apply IH; [now apply step_inv | now apply step_refines_exact].
+  Qed.
+
+  Theorem refinement_exact ttl ordered (h : list (trk_op V)) :
+    refines nattrs (fst (trk_run nattrs (trk_init ttl ordered) h)) (sp_run_exact ttl ordered (map abs_op h)).
+  Proof. apply (run_refines_exact h (trk_init ttl ordered) []); [apply inv_init | intros m; reflexivity]. Qed.
+End Exact.
